@@ -90,6 +90,21 @@ def oracle(ctx, case, run, edges):
                         'archiving was entered from %s and left for %s (event %d %s)' % (came, c, i, ev))
         if o['hops']:
             booted = True
+        if ev[0] == 'Fire' and prev is not None and o['out'] in ('Rejected', 'SetterErr') and not o['hops']:
+            # refused before the state moved (no edge from the current state, or
+            # the guard of a `before` callback because a background step owns
+            # the machine): nothing may have changed.  (A trigger WITH an edge
+            # whose `after` callback raises has moved the state: that is an
+            # accepted trigger, C10_edges speaks about it.)
+            same = all(prev[k] == o[k] for k in
+                       ('st', 'tr', 'prior', 'pending', 'archive', 'priority', 'waits', 'handles'))
+            if not same:
+                diff = [k for k in ('st', 'tr', 'prior', 'pending', 'archive', 'priority', 'waits', 'handles')
+                        if prev[k] != o[k]]
+                return ('reject-not-pure', {'trigger': ev[1], 'state': prev['st'], 'outcome': o['out']},
+                        '%s fired in %s/%s was refused (%s) but changed %s'
+                        % (ev[1], prev['st'], prev['tr'], o['out'],
+                           {k: [prev[k], o[k]] for k in diff}))
         if ev[0] == 'Fire' and prev is not None:
             t = ev[1]
             allowed = prev['st'] in trig.get(t, ())
